@@ -633,6 +633,9 @@ class Driver:
         top = name.split(".")[0]
         for mname in [k for k in sys.modules if k == top or k.startswith(top + ".")]:
             del sys.modules[mname]
+        import shutil
+        shutil.rmtree(os.path.join(self.base, pkg["name"] + "_top"), ignore_errors=True)
+        shutil.rmtree(os.path.join(self.base, pkg["name"]), ignore_errors=True)
         return obs
 
 
